@@ -39,9 +39,11 @@ Verdict(o) ==
     LET cl == [k \in 1..Len(o.runs) |-> RunClause(o.docs, o.runs[k])]
         bad == {k \in 1..Len(o.runs) : cl[k] # ""}
         OutBag(r) == [q \in {r.out[i] : i \in 1..Len(r.out)} |-> Cardinality({i \in 1..Len(r.out) : r.out[i] = q})]
+        \* (runs of one group write the rule names alike; queries quote the names, so groups are compared within themselves)
+        First(k) == CHOOSE j \in 1..Len(o.runs) : o.runs[j].grp = o.runs[k].grp /\ \A j2 \in 1..Len(o.runs) : o.runs[j2].grp = o.runs[k].grp => j <= j2
         same == \/ MissingRef(o.docs)
-                \/ IF Mixed(o.docs) THEN \A k \in 1..Len(o.runs) : OutBag(o.runs[k]) = OutBag(o.runs[1])
-                   ELSE \A k \in 1..Len(o.runs) : Pairs(o.docs, o.runs[k]) = Pairs(o.docs, o.runs[1])
+                \/ IF Mixed(o.docs) THEN \A k \in 1..Len(o.runs) : OutBag(o.runs[k]) = OutBag(o.runs[First(k)])
+                   ELSE \A k \in 1..Len(o.runs) : Pairs(o.docs, o.runs[k]) = Pairs(o.docs, o.runs[First(k)])
     IN  IF bad # {} THEN
             LET k == CHOOSE j \in bad : \A j2 \in bad : j <= j2
             IN  [id |-> o.id, v |-> "violation:" \o cl[k], run |-> k, nbad |-> Cardinality(bad)]
